@@ -125,7 +125,10 @@ Definition reported (sigma : path -> bool) (t : item) (matching other : list pat
   (forall a l, subexpr_at t a = Some l -> is_leaf l = true ->
      exists q n, In q (matching ++ other) /\ subexpr_at t q = Some n /\ covered n q = Some a).
 
-(* guard of the partial theorem: no operation evaluated with `all` has zero operands *)
+(* no operation evaluated with `all` has zero operands.  This WAS the guard of the theorem while
+   the code gave a zero-operand operation the status of its named ancestor (repaired in /repo
+   831a694); the theorem C16_matching_iff_true no longer needs it.  Kept for the corollary
+   C16_matching_iff_true_partial only. *)
 Definition no_empty_all (dflt_or : bool) (t : item) : Prop :=
   forall p k m, subexpr_at t p = Some (Op k m []) -> or_like dflt_or k = true.
 
